@@ -232,7 +232,138 @@ fn queries_case<K: Kern<D>, const D: usize>(cx: &mut Ctx, r: &mut Rng, idx: usiz
     op_hull_query_batch(&mut cx.tr, 0, &dt, &hull, &few, "after mutation");
 }
 
+/// C10 on NON-Delaunay triangulations: a long silent walk of legal flips away from Delaunay (repair off), then every
+/// lattice query under every hint. On such complexes the visibility walk can cycle, which is the only way small
+/// inputs reach the cycle detection and the scan fallback of locate.
+fn nondelaunay_locate_case<K: Kern<D>, const D: usize>(cx: &mut Ctx, r: &mut Rng, idx: usize) {
+    let g = GUARANTEES[idx % 3];
+    cx.start_case(format!("C10 nondelaunay D={D} k={} i={idx}", K::NAME));
+    let hi = max_coord(D);
+    let n = if D == 2 { 9 + r.below(4) } else { 7 + r.below(3) };
+    let pts = if idx % 2 == 0 { gp_points(r, D, n.min(9), hi) } else { random_points(r, D, n, hi) };
+    if pts.len() < D + 3 {
+        return;
+    }
+    let input = cx.inputs(&pts, true);
+    let vs: Vec<_> = input.iter().map(|v| v.vertex::<D>(0)).collect();
+    let Ok(mut dt) = Dt::<K, D>::with_topology_guarantee(&K::default(), &vs, g) else { return };
+    dt.set_delaunay_repair_policy(DelaunayRepairPolicy::Never);
+    let want = 10 + r.below(20);
+    let walked = silent_walk(&mut dt, r, want);
+    if walked == 0 || dt.as_triangulation().validate().is_err() {
+        return;
+    }
+    let post = cx.tr.project(&dt);
+    cx.tr.emit("Adopt", 0, serde_json::json!({"D": D, "why": "non-Delaunay triangulation reached by a silent flip walk"}), serde_json::json!({}), Some(post), false);
+    let cur_pts: Vec<Vec<i64>> = dt.vertices().map(|(_, v)| cx.tr.coord_proj(v.point().coords()).0).collect();
+    let qs = query_points(r, &cur_pts, if cx.thorough { 400 } else { 150 });
+    let mut hints: Vec<Hint> = vec![Hint::None];
+    for ck in dt.tds().cell_keys() {
+        hints.push(Hint::Cell(ck));
+    }
+    op_locate_batch(&mut cx.tr, 0, &dt, &qs, &hints);
+}
+
+/// The twisted pinwheel of spec/MC_LocateWalk.tla in the real library: the visibility walk of `locate` cycles on it
+/// (TLC: MC_LocateWalk_pinwheel_cycles), so these calls go through the cycle detection and the scan fallback. The
+/// complex is reached from the Delaunay triangulation of the six points by the three flips a search found, and the
+/// slots of the ring triangles are rotated (an even permutation, neighbours rotated with them: still a valid,
+/// coherently oriented complex) so that the first outside facet is the one towards the next ring triangle.
+fn pinwheel_case<K: Kern<2>>(cx: &mut Ctx, r: &mut Rng, rotate: bool) {
+    cx.start_case(format!("C10 pinwheel D=2 k={} rotate={rotate}", K::NAME));
+    let pts: Vec<Vec<i64>> = vec![vec![0, 0], vec![24, 0], vec![12, 20], vec![6, 2], vec![11, 2], vec![11, 4]];
+    let input = cx.inputs(&pts, true);
+    let uu: Vec<uuid::Uuid> = input.iter().map(|v| v.uuid).collect();
+    let Some(mut dt) = op_construct::<K, 2>(&mut cx.tr, 0, Ctor::WithGuarantee, GUARANTEES[1], Opts::default_like(), &input) else { return };
+    op_set_policy(&mut cx.tr, 0, &mut dt, PolicySet::Repair(DelaunayRepairPolicy::Never));
+    let key_of = |dt: &Dt<K, 2>, i: usize| find_vertex(dt, uu[i - 1]).map(|(k, _)| k);
+    for (a, b) in [(1usize, 5usize), (2, 6), (3, 4)] {
+        let (Some(ka), Some(kb)) = (key_of(&dt, a), key_of(&dt, b)) else { return };
+        let hit = dt.cells().find_map(|(ck, c)| {
+            let vs = c.vertices();
+            if vs.contains(&ka) && vs.contains(&kb) { vs.iter().position(|v| *v != ka && *v != kb).map(|i| (ck, i as u8)) } else { None }
+        });
+        let Some((ck, i)) = hit else { return };
+        if !op_flip(&mut cx.tr, 0, &mut dt, &FlipArg::K2(ck, i), 0, "towards the pinwheel").ok {
+            return;
+        }
+    }
+    // is it the pinwheel?
+    let want: Vec<[usize; 3]> = vec![[1, 2, 4], [2, 4, 5], [2, 3, 5], [3, 5, 6], [1, 3, 6], [1, 4, 6], [4, 5, 6]];
+    let idx_of = |dt: &Dt<K, 2>, vk: VertexKey| (1..=6).find(|i| key_of(dt, *i) == Some(vk)).unwrap_or(0);
+    let mut have: Vec<[usize; 3]> = dt.cells().map(|(_, c)| { let mut t = [0usize; 3]; for (j, v) in c.vertices().iter().enumerate() { t[j] = idx_of(&dt, *v); } t.sort_unstable(); t }).collect();
+    have.sort_unstable();
+    let mut w = want.clone();
+    w.sort_unstable();
+    if have != w {
+        return;
+    }
+    if rotate {
+        // vertex that must sit in slot 0 of each ring triangle (facet 0 = the edge towards the next ring triangle)
+        let first: [([usize; 3], usize); 6] = [([1, 2, 4], 1), ([2, 4, 5], 4), ([2, 3, 5], 2), ([3, 5, 6], 5), ([1, 3, 6], 3), ([1, 4, 6], 6)];
+        let mut tds = dt.tds().clone();
+        let cks: Vec<CellKey> = tds.cell_keys().collect();
+        for ck in cks {
+            let vs: Vec<VertexKey> = tds.get_cell(ck).unwrap().vertices().to_vec();
+            let mut ids: Vec<usize> = vs.iter().map(|v| idx_of(&dt, *v)).collect();
+            let mut sorted = ids.clone();
+            sorted.sort_unstable();
+            let Some((_, f)) = first.iter().find(|(t, _)| t.to_vec() == sorted) else { continue };
+            let Some(cell) = tds.get_cell_by_key_mut(ck) else { continue };
+            let mut guard = 0;
+            while ids[0] != *f && guard < 3 {
+                cell.verif_vertices_mut().rotate_left(1);
+                if let Some(nb) = cell.verif_neighbors_mut().as_mut() {
+                    nb.rotate_left(1);
+                }
+                ids.rotate_left(1);
+                guard += 1;
+            }
+        }
+        dt = Dt::<K, 2>::from_tds_with_topology_guarantee(tds, K::default(), GUARANTEES[1]);
+        dt.set_delaunay_repair_policy(DelaunayRepairPolicy::Never);
+        if dt.as_triangulation().validate().is_err() {
+            return;
+        }
+        let post = cx.tr.project(&dt);
+        cx.tr.emit("Adopt", 0, serde_json::json!({"D": 2, "why": "pinwheel with rotated slots (even permutations)"}), serde_json::json!({}), Some(post), false);
+    }
+    let cur_pts: Vec<Vec<i64>> = dt.vertices().map(|(_, v)| cx.tr.coord_proj(v.point().coords()).0).collect();
+    let qs = query_points(r, &cur_pts, 700);
+    let mut hints: Vec<Hint> = vec![Hint::None];
+    for ck in dt.tds().cell_keys() {
+        hints.push(Hint::Cell(ck));
+    }
+    op_locate_batch(&mut cx.tr, 0, &dt, &qs, &hints);
+}
+
 pub fn drive_queries(cx: &mut Ctx) {
+    for (i, rotate) in [false, true, true, false].into_iter().enumerate() {
+        if !cx.mine() {
+            continue;
+        }
+        let mut r = Rng::new(cx.seed * 3_000_017 + i as u64);
+        if i % 2 == 0 {
+            pinwheel_case::<FastKernel<f64>>(cx, &mut r, rotate);
+        } else {
+            pinwheel_case::<RobustKernel<f64>>(cx, &mut r, rotate);
+        }
+    }
+    for d in 2..=3usize {
+        for i in 0..(if cx.thorough { 60 } else { 16 }) {
+            let mut r = Rng::new(cx.seed * 3_000_029 + (d * 100_000 + i) as u64);
+            if !cx.mine() {
+                continue;
+            }
+            let k = (i / 2) % 2;
+            match (d, k) {
+                (2, 0) => nondelaunay_locate_case::<FastKernel<f64>, 2>(cx, &mut r, i),
+                (2, _) => nondelaunay_locate_case::<RobustKernel<f64>, 2>(cx, &mut r, i),
+                (_, 0) => nondelaunay_locate_case::<FastKernel<f64>, 3>(cx, &mut r, i),
+                (_, _) => nondelaunay_locate_case::<RobustKernel<f64>, 3>(cx, &mut r, i),
+            }
+        }
+    }
     let per_dim = if cx.thorough { 60 } else { 10 };
     for d in 2..=5usize {
         for i in 0..per_dim {
@@ -310,7 +441,55 @@ fn serde_case<K: Kern<D>, const D: usize>(cx: &mut Ctx, r: &mut Rng, idx: usize)
     }
 }
 
+/// round trips of triangulations WITHOUT cells: the bootstrap phase (fewer than D+1 vertices) and a lone simplex one
+/// of whose vertices was removed again (D vertices, no cells, key gaps); then the same insertions on both
+fn serde_cellless_case<K: Kern<D>, const D: usize>(cx: &mut Ctx, r: &mut Rng, idx: usize) {
+    let g = GUARANTEES[idx % 3];
+    cx.start_case(format!("C13 serde-cellless D={D} k={} i={idx}", K::NAME));
+    let hi = max_coord(D);
+    let pts = gp_points(r, D, D + 3, hi);
+    if pts.len() < D + 3 {
+        return;
+    }
+    let mut dt = op_empty::<K, D>(&mut cx.tr, 0, g);
+    let nboot = if idx % 2 == 0 { idx / 2 % (D + 1) } else { D + 1 };
+    let mut inserted = Vec::new();
+    for p in pts.iter().take(nboot) {
+        let v = VIn::lattice(cx.fresh_uuid(), p.clone(), Some(40 + inserted.len() as i32));
+        if !op_insert(&mut cx.tr, 0, &mut dt, &v, false) {
+            return;
+        }
+        inserted.push(v.uuid);
+    }
+    if idx % 2 == 1 {
+        // the lone simplex loses a vertex again
+        let u = inserted[idx / 2 % inserted.len()];
+        if !op_remove(&mut cx.tr, 0, &mut dt, u) {
+            return;
+        }
+    }
+    let Some(mut copy) = op_serde(&mut cx.tr, 0, 1, &dt) else { return };
+    op_compare(&mut cx.tr, 0, 1, "after round trip");
+    for p in pts.iter().skip(nboot) {
+        let v = VIn::lattice(cx.fresh_uuid(), p.clone(), Some(77));
+        if !op_insert(&mut cx.tr, 0, &mut dt, &v, false) || !op_insert(&mut cx.tr, 1, &mut copy, &v, false) {
+            return;
+        }
+    }
+    op_compare(&mut cx.tr, 0, 1, "after insert on both");
+}
+
 pub fn drive_serde(cx: &mut Ctx) {
+    for d in 2..=5usize {
+        for i in 0..(if cx.thorough { 2 * (d + 1) } else { d + 1 }) {
+            let mut r = Rng::new(cx.seed * 4_000_043 + (d * 100_000 + i) as u64);
+            if !cx.mine() {
+                continue;
+            }
+            let k = (i / 2) % 2;
+            dispatch!(d, k, serde_cellless_case(cx, &mut r, i));
+        }
+    }
     let per_dim = if cx.thorough { 80 } else { 12 };
     for d in 2..=5usize {
         for i in 0..per_dim {
